@@ -1,0 +1,97 @@
+//! Verification hooks (only compiled with `--cfg gothenburgbitfactory_taskchampion_verif`).
+//!
+//! Thin public wrappers, without behaviour of their own, around crate-private items that the
+//! external verification harnesses (Kani proof harnesses, counterexample replay) need to reach:
+//! the synchronized-operation kernel, the encryption envelope and the object-store server over
+//! an in-memory object store.
+#![allow(missing_docs)]
+
+use crate::errors::Result;
+use crate::server::SyncOp;
+use crate::{Operation, Uuid};
+use chrono::{DateTime, Utc};
+
+/// Public mirror of the crate-private `SyncOp`.
+#[derive(Debug, Clone, PartialEq, Eq)]
+pub enum VOp {
+    Create {
+        uuid: Uuid,
+    },
+    Delete {
+        uuid: Uuid,
+    },
+    Update {
+        uuid: Uuid,
+        property: String,
+        value: Option<String>,
+        timestamp: DateTime<Utc>,
+    },
+}
+
+fn to_sync(op: VOp) -> SyncOp {
+    match op {
+        VOp::Create { uuid } => SyncOp::Create { uuid },
+        VOp::Delete { uuid } => SyncOp::Delete { uuid },
+        VOp::Update {
+            uuid,
+            property,
+            value,
+            timestamp,
+        } => SyncOp::Update {
+            uuid,
+            property,
+            value,
+            timestamp,
+        },
+    }
+}
+
+fn from_sync(op: SyncOp) -> VOp {
+    match op {
+        SyncOp::Create { uuid } => VOp::Create { uuid },
+        SyncOp::Delete { uuid } => VOp::Delete { uuid },
+        SyncOp::Update {
+            uuid,
+            property,
+            value,
+            timestamp,
+        } => VOp::Update {
+            uuid,
+            property,
+            value,
+            timestamp,
+        },
+    }
+}
+
+/// `SyncOp::transform`
+pub fn transform(a: VOp, b: VOp) -> (Option<VOp>, Option<VOp>) {
+    let (x, y) = SyncOp::transform(to_sync(a), to_sync(b));
+    (x.map(from_sync), y.map(from_sync))
+}
+
+/// `SyncOp::from_op`
+pub fn from_op(op: Operation) -> Option<VOp> {
+    SyncOp::from_op(op).map(from_sync)
+}
+
+/// `SyncOp::into_op`
+pub fn into_op(op: VOp) -> Operation {
+    to_sync(op).into_op()
+}
+
+#[cfg(feature = "encryption")]
+pub mod encryption {
+    use super::*;
+    pub use crate::server::verif_encryption::{
+        envelope_from_bytes, envelope_to_bytes, seal, unseal,
+    };
+    /// keep `Result` and `Uuid` referenced for the re-exported signatures
+    pub type VerifResult<T> = Result<T>;
+    pub type VersionId = Uuid;
+}
+
+#[cfg(feature = "cloud")]
+pub mod cloud {
+    pub use crate::server::verif_cloud::{MemStore, VerifCloudServer};
+}
